@@ -7,6 +7,7 @@ import WinterProofs.Lemmas.C10Spec
 import WinterProofs.Lemmas.C10Paths
 import WinterProofs.Lemmas.C10PathsHonest
 import WinterProofs.Lemmas.C10Ser
+import WinterProofs.Lemmas.C10Refine
 
 namespace WinterProofs.C10
 open Model.Merkle
@@ -241,14 +242,18 @@ theorem spec_root_binding (H : Hasher D) (inj : MergeInj H) (val : Nat → D) (d
     ∀ (j i : Nat) (l : D), idxs[j]? = some i → leaves[j]? = some l → l = val (2 ^ d + i) :=
   spec_binding H inj val d wf idxs leaves ns hnd hr h
 
-/-- The code-shaped verifier is sound with respect to the specification on trees: whenever
-    `get_root` recomputes the root of a tree from an opening of the tree's depth (`merge` collision
-    free), `specRoot` accepts the frontier of the opening's leaves with the specification's own
-    proof nodes.  (The structural refinement — `get_root` on positional rows and proof pointers equals
-    `specRoot` on the flattened rows for an arbitrary `merge` and arbitrary digests — is
-    `GetRootRefinesSpec`; it is not proved.  The property theorems `batch_complete`,
-    `batch_binding`, `batch_unique` above are proved directly on the code-shaped functions and do
-    not depend on it.) -/
+/-- Structural refinement of the code-shaped verifier to the specification: for every `merge`,
+    every opening of depth ≥ 1 and every position list that passes the index checks (non-empty, at
+    most 255, as many as leaves, accepted by `map_indexes`, as many pairs as node rows), `get_root`
+    — positional rows `nodes[i]`, proof pointers, map of hashed nodes — returns exactly what
+    `specRoot` computes from the sorted frontier of the opening's leaves and the rows flattened in
+    the order the levels consume them (`flattenRows`; `invalid` when a row is too short or not
+    consumed to its end).  No hypothesis on `merge`, the digests or the root. -/
+theorem getRoot_refines_spec (H : Hasher D) : GetRootRefinesSpec H := getRoot_refines H
+
+/-- A consequence on trees (kept from the time the refinement was open): whenever `get_root`
+    recomputes the root of a tree from an opening of the tree's depth (`merge` collision free),
+    `specRoot` accepts the frontier of the opening's leaves with the specification's own proof nodes. -/
 theorem getRoot_sound_wrt_spec_partial (H : Hasher D) [DecidableEq D] (inj : MergeInj H) (leaves : List D) (d : Nat)
     (hd1 : 1 ≤ d) (hl : leaves.length = 2 ^ d) (root : D) (hroot : (treeOf H leaves).root = .ok root)
     (p : BatchProof D) (hdp : p.depth = d) (idxs : List Nat) (hg : getRoot H p idxs = .ok root) :
@@ -274,75 +279,6 @@ theorem getRoot_sound_wrt_spec_partial (H : Hasher D) [DecidableEq D] (inj : Mer
   rw [hleaves]
   exact ⟨_, spec_complete H _ p.depth vwf idxs hne hrange⟩
 
-/-- the proof nodes one level of `get_root` reads, in the order it reads them, and the advanced
-    proof pointers (lock-step over positions, rows and pointers as `rootLevel`) -/
-def readLevel : List Nat → List (List D) → List Nat → Option (List D × List Nat)
-  | [], _, ptrs => some ([], ptrs)
-  | [_], rows, ptrs =>
-    match rows, ptrs with
-    | row :: _, ptr :: ptrs' => (row[ptr]?).map (fun s => ([s], (ptr + 1) :: ptrs'))
-    | _, _ => none
-  | k :: k' :: rest, rows, ptrs =>
-    if k' = xor1 k then
-      match rows, ptrs with
-      | _ :: _ :: rows', p0 :: p1 :: ptrs' => (readLevel rest rows' ptrs').map (fun r => (r.1, p0 :: p1 :: r.2))
-      | _, _ => none
-    else
-      match rows, ptrs with
-      | row :: rows', ptr :: ptrs' =>
-        match row[ptr]? with
-        | none => none
-        | some s => (readLevel (k' :: rest) rows' ptrs').map (fun r => (s :: r.1, (ptr + 1) :: r.2))
-      | _, _ => none
-
-def readLevels (rows : List (List D)) : Nat → List Nat → List Nat → Option (List D × List Nat)
-  | 0, _, ptrs => some ([], ptrs)
-  | l + 1, K, ptrs =>
-    match readLevel K rows ptrs with
-    | none => none
-    | some (s, ptrs') => (readLevels rows l (parents K) ptrs').map (fun r => (s ++ r.1, r.2))
-
-/-- the first loop of `get_root` reads the head of the row of every pair with a missing leaf -/
-def readLeaves (imap : SMap Nat) : List Nat → List (List D) → Option (List D × List Nat)
-  | [], _ => some ([], [])
-  | _ :: _, [] => none
-  | e :: norm, row :: rows =>
-    if SMap.get imap e ≠ none ∧ SMap.get imap (e + 1) ≠ none then
-      (readLeaves imap norm rows).map (fun r => (r.1, 0 :: r.2))
-    else
-      match row with
-      | [] => none
-      | s :: _ => (readLeaves imap norm rows).map (fun r => (s :: r.1, 1 :: r.2))
-
-/-- the rows of an opening flattened in the order `get_root` consumes them; `none` when a row is
-    too short or not consumed to its end -/
-def flattenRows (imap : SMap Nat) (p : BatchProof D) (norm : List Nat) : Option (List D) :=
-  match readLeaves imap norm p.nodes with
-  | none => none
-  | some (s0, ptrs) =>
-    match readLevels p.nodes (p.depth - 1) (norm.map (fun e => (2 ^ p.depth + e) / 2)) ptrs with
-    | none => none
-    | some (s1, ptrs') => if anyUnused ptrs' p.nodes then none else some (s0 ++ s1)
-
-/-- The structural refinement, stated at full strength (NOT proved): for every `merge`, every opening
-    of depth ≥ 1 and every position list that passes the index checks, `get_root` is `specRoot` on the
-    frontier of the opening's leaves and the rows flattened in consumption order.  What is missing
-    is the invariant relating the positional rows / proof pointers of `rootLeafLoop`, `rootLevel` to
-    the flat list (`readLeaves`, `readLevel`), and the correspondence between the pair-wise first
-    loop and the element-wise first level of the specification. -/
-def GetRootRefinesSpec (H : Hasher D) : Prop :=
-  ∀ (p : BatchProof D) (idxs : List Nat) (imap : SMap Nat), 1 ≤ p.depth → idxs ≠ [] → idxs.length ≤ 255 →
-    idxs.length = p.leaves.length → mapIndexes idxs p.depth = .ok imap →
-    (normalizeIndexes idxs).length = p.nodes.length →
-    getRoot H p idxs =
-      match flattenRows imap p (normalizeIndexes idxs) with
-      | none => .err .invalid
-      | some ns =>
-        match specRoot H p.depth (leafFrontier p.depth idxs p.leaves []) ns with
-        | some r => .ok r
-        | none => .err .invalid
-
--- the statement is meaningful: it holds on the concrete opening below (see the examples)
 
 /-! ## Concrete instances (every theorem with hypotheses has a non-trivial instance)
 
